@@ -38,7 +38,17 @@ def run(ctx):
         tj.append(dict(module="MC_C19", name="MC_C19_" + name, view="View", constants=consts,
                        invariants=("TypeOK", "SizeExact"), properties=("SumPure",), workers=6, timeout=3000))
     tj.append(dict(module="MC_C19inj", name="MC_C19inj", constants={}, workers=1, timeout=900))
+    # implementation-shaped model of cmac{tag,x,nx,len} (symbolic chain, scaled block size): refines the absorbed string,
+    # the held last block is never flushed early, checkSum's case analysis is CMAC's
+    cm = dict(BS=4, Lens=core.tla_set([0, 1, 2, 3, 4, 5, 7, 8, 9, 12, 13]), MaxLen=30, MaxOps=5 if ctx.tier == "quick" else 6)
+    tj.append(dict(module="CmacImpl", name="CmacImpl", constants=dict(cm, ZeroWriteFlushes="FALSE"), invariants=("Refines", "HeldBlock", "SumCases"), workers=2, timeout=600))
     ctx.tlc_many(tj, parallel=4)
+    # ... and TLC must refute the variant without the early return for empty input (the shape of seeded change C19-1)
+    bad = ctx.tlc("CmacImpl", dict(cm, ZeroWriteFlushes="TRUE"), invariants=("Refines", "HeldBlock", "SumCases"), workers=1, timeout=600, name="CmacImpl_slip", allow_fail=True)
+    ctx.tlc_runs.remove(bad)
+    if bad["ok"] or "is violated" not in bad["out_tail"]:
+        raise core.Infra("CmacImpl: the zero-length-write slip was not refuted by TLC")
+    ctx.extra["cmac_impl_slip_refuted"] = True
     core.cat_files(outs, out)
     cfgs = [{"label": "default"}, {"label": "cpu.aes=off", "env": {"GODEBUG": "cpu.aes=off"}}, {"label": "purego", "tags": ("verif", "purego")}]
     ctx.replay_all(out, cfgs)
